@@ -114,6 +114,31 @@ def qname_doc(rnd):
     return '<t:root xmlns:t="urn:t">%s</t:root>' % ''.join(items), len(items)
 
 
+SUBST_XSD = ('<xs:schema xmlns:xs="%s" xmlns:t="urn:t" targetNamespace="urn:t" elementFormDefault="qualified">'
+             '<xs:element name="head" type="xs:anySimpleType"/>'
+             '<xs:element name="mi" type="xs:int" substitutionGroup="t:head"/>'
+             '<xs:element name="md" type="xs:date" substitutionGroup="t:head"/>'
+             '<xs:element name="mb" type="xs:boolean" substitutionGroup="t:mi" block="substitution"/>'
+             '<xs:complexType name="Sec"><xs:sequence><xs:element ref="t:head" minOccurs="0" maxOccurs="unbounded"/>'
+             '<xs:element name="sec" type="t:Sec" minOccurs="0" maxOccurs="unbounded"/></xs:sequence></xs:complexType>'
+             '<xs:element name="root" type="t:Sec"/></xs:schema>' % XS)
+SUBST_XSD = SUBST_XSD.replace('<xs:element name="mb" type="xs:boolean" substitutionGroup="t:mi" block="substitution"/>', '')
+
+
+def subst_doc(rnd):
+    """Members of a substitution group in place of the head, at every depth a lazy resource streams: a value is
+    valid for the head's type (anySimpleType) but may be invalid for the member's own type."""
+    def members():
+        return ''.join('<t:%s>%s</t:%s>' % (n, rnd.choice(['5', 'x', '2000-01-01', '']), n)
+                       for n in (rnd.choice(['head', 'mi', 'md']) for _ in range(rnd.choice([0, 1, 2, 3]))))
+
+    def sec(depth):
+        kids = ''.join(sec(depth + 1) for _ in range(rnd.choice([0, 1, 2]))) if depth < 3 else ''
+        return '<t:sec>%s%s</t:sec>' % (members(), kids)
+    body = members() + ''.join(sec(1) for _ in range(rnd.choice([0, 1, 2, 3])))
+    return '<t:root xmlns:t="urn:t">%s</t:root>' % body, body.count('<t:') or 1
+
+
 def big_doc(rnd):
     """A document of the template family larger than the parser's read buffer (> 64 KiB): keys, key references
     and IDREFs reach across many streamed chunks and across several reads of the underlying file."""
@@ -290,7 +315,7 @@ def compare_doc(s, xsd, doc, nchunks, st, label, replaying=False):
 def shards(tier, seed):
     return [('dg', k, tier, seed) for k in range(10)] + [('tpl', k, tier, seed) for k in range(6)] + \
            [('big', k, tier, seed) for k in range(4)] + [('shadow', k, tier, seed) for k in range(2)] + \
-           [('qname', k, tier, seed) for k in range(2)]
+           [('qname', k, tier, seed) for k in range(2)] + [('subst', k, tier, seed) for k in range(2)]
 
 
 def run_shard(desc):
@@ -324,6 +349,15 @@ def run_shard(desc):
             s = schemas['11' if rnd.random() < .3 else '10']
             st_.sample({'generator': 'local declarations shadowing global names', 'doc': doc[:300]}, cap=2)
             return compare_doc(s, SHADOW_XSD, doc, nch, st_, 'shadow')
+    elif kind == 'subst':
+        n = 300 if tier == 'thorough' else 50
+        schemas = {v: c(SUBST_XSD) for v, c in (('10', xmlschema.XMLSchema10), ('11', xmlschema.XMLSchema11))}
+
+        def body(rnd, st_):
+            doc, nch = subst_doc(rnd)
+            s = schemas['11' if rnd.random() < .3 else '10']
+            st_.sample({'generator': 'substitution group members at streamed depths', 'doc': doc[:300]}, cap=2)
+            return compare_doc(s, SUBST_XSD, doc, nch, st_, 'subst')
     elif kind == 'big':
         n = 12 if tier == 'thorough' else 2
         schemas = {v: c(TPL_XSD) for v, c in (('10', xmlschema.XMLSchema10), ('11', xmlschema.XMLSchema11))}
